@@ -252,6 +252,10 @@ bool session_file_storage::read_from_file(int fd,time_t &timeout,std::string &da
 		return false;
 	if(!read_all(fd,&crc,sizeof(crc)) || !read_all(fd,&size,sizeof(size)))
 		return false;
+	// the size comes from the file itself: never trust it beyond what the file holds
+	struct stat st;
+	if(size > 0x7FFFFFFFu || ::fstat(fd,&st) < 0 || st.st_size < 16 || static_cast<uint64_t>(st.st_size) - 16 < size)
+		return false;
 	std::vector<char> buffer(size,0);
 	impl::crc32_calc crc_calc;
 	if(size > 0) {
